@@ -48,6 +48,7 @@ var (
 	ErrGasPayer                  = errors.New("the gasPayer error")
 	ErrAddressType               = errors.New("address type wrong")
 	ErrTempAddress               = errors.New("the issuer part in temp address is incorrect")
+	ErrRepeatedSigner            = errors.New("a signer signed the transaction more than once")
 )
 
 type TxProcessor struct {
@@ -206,6 +207,15 @@ func (p *TxProcessor) checkSignersWeight(sender common.Address, tx *types.Transa
 	}
 	if len(signers) == 0 {
 		return ErrTxNotSign
+	}
+	// every signer signs once. A repeated signature must neither add weight nor give the same signed content another transaction hash
+	signed := make(map[common.Address]struct{}, len(signers))
+	for _, addr := range signers {
+		if _, ok := signed[addr]; ok {
+			log.Errorf("The signer %s signed more than once", addr.String())
+			return ErrRepeatedSigner
+		}
+		signed[addr] = struct{}{}
 	}
 	// 获取账户的签名者列表
 	accSigners := p.am.GetAccount(sender).GetSigners()
